@@ -201,9 +201,12 @@ def make_walks(g, rng, n, maxlen=12, forced=True):
     return walks[:n] if not forced else walks
 
 
-def write_gaf(path, lines, mode="plain", rng=None, layout="standard", final_newline=True):
-    """mode plain | bgzf (own writer, block layout chosen) | pysam (second producer)."""
-    text = "\n".join(lines) + ("\n" if final_newline else "")
+def write_gaf(path, lines, mode="plain", rng=None, layout="standard", final_newline=None):
+    """mode plain | bgzf (own writer, block layout chosen) | pysam (second producer).
+    final_newline None: a last line without a line terminator (still a record) in 15% of the files."""
+    if final_newline is None:
+        final_newline = rng.random() >= 0.15 if rng is not None else True
+    text = "\n".join(lines) + ("\n" if final_newline and lines else "")  # no records: an empty file
     if mode == "plain":
         with open(path, "w") as f:
             f.write(text)
